@@ -39,7 +39,8 @@ def seq_configs(quick):
         ('vip/29', seq.vip_cfg('192.168.0.0/29', own, P29),
          7, 6),
         ('vip-pools 2x/30 one dir',
-         seq.vip_pools_cfg(['10.8.0.0/30', '10.9.0.0/30'], own), d, 2),
+         seq.vip_pools_cfg(['10.8.0.0/30', '10.9.0.0/30'], own),
+         8 if quick else 9, 2),
         ('rules', seq.rule_cfg(own), d, 1),
         ('specs', seq.spec_cfg(SPEC_OWNERS[:n]), d, 1),
         ('netsvc/30', seq.netsvc_cfg('192.168.0.0/30', n), d, 1),
